@@ -37,9 +37,12 @@ type C20Query struct {
 
 type C20Case struct {
 	// PreBuild: every Query object is constructed (with the shared map) before the first one runs.
-	PreBuild bool           `json:"prebuild,omitempty"`
-	Init     map[string]any `json:"init"`
-	Queries  []C20Query     `json:"queries"`
+	PreBuild bool `json:"prebuild,omitempty"`
+	// Big: register kb holds native int64 values beyond 2^53 (c20BigBase + v, v being the small number this
+	// case file shows in column b / in init): a register returns exactly what was stored
+	Big     bool           `json:"big,omitempty"`
+	Init    map[string]any `json:"init"`
+	Queries []C20Query     `json:"queries"`
 }
 
 var c20NumKeys = []string{"k1", "k2"}
@@ -88,6 +91,10 @@ func genC20(t *rapid.T) any {
 	if rapid.IntRange(0, 3).Draw(t, "preset3") == 0 {
 		c.Init["k3"] = rapid.SampledFrom([]string{"", "p"}).Draw(t, "init.k3")
 	}
+	c.Big = rapid.IntRange(0, 3).Draw(t, "big") == 0
+	if c.Big && rapid.Bool().Draw(t, "presetbig") {
+		c.Init["kb"] = rapid.SampledFrom([]float64{1, 2, 3}).Draw(t, "init.kb")
+	}
 	nq := rapid.IntRange(1, 5).Draw(t, "nqueries")
 	for qi := 0; qi < nq; qi++ {
 		ql := fmt.Sprintf("q%d", qi)
@@ -98,6 +105,9 @@ func genC20(t *rapid.T) any {
 				"a": rapid.SampledFrom([]float64{1, 2, 3, 4, 10, -5}).Draw(t, fmt.Sprintf("%s.r%d.a", ql, r)),
 				"s": rapid.SampledFrom([]string{"x", "y", "", "zz"}).Draw(t, fmt.Sprintf("%s.r%d.s", ql, r)),
 			})
+			if c.Big {
+				q.Rows[r].(map[string]any)["b"] = rapid.SampledFrom([]float64{0, 1, 2, 3, 5, -1}).Draw(t, fmt.Sprintf("%s.r%d.b", ql, r))
+			}
 		}
 		switch rapid.IntRange(0, 3).Draw(t, ql+".where") {
 		case 0:
@@ -108,7 +118,16 @@ func genC20(t *rapid.T) any {
 		ni := rapid.IntRange(1, 6).Draw(t, ql+".nitems")
 		for i := 0; i < ni; i++ {
 			il := fmt.Sprintf("%s.i%d", ql, i)
-			switch rapid.IntRange(0, 6).Draw(t, il+".kind") {
+			kindDraw := rapid.IntRange(0, 6).Draw(t, il+".kind")
+			if c.Big && rapid.IntRange(0, 2).Draw(t, il+".bigitem") == 0 {
+				if rapid.Bool().Draw(t, il+".bigset") {
+					q.Items = append(q.Items, C20Item{Kind: "set", Key: "kb", Val: sq.Col("b")})
+				} else {
+					q.Items = append(q.Items, C20Item{Kind: "get", Key: "kb", Alias: fmt.Sprintf("g%d", i)})
+				}
+				continue
+			}
+			switch kindDraw {
 			case 0, 1, 2:
 				k := rapid.SampledFrom([]string{"k1", "k2", "k3"}).Draw(t, il+".key")
 				q.Items = append(q.Items, C20Item{Kind: "set", Key: k, Val: genC20Value(t, k, il+".val")})
@@ -196,6 +215,12 @@ func checkC20(c *C20Case) Result {
 	if live == nil {
 		live = map[string]any{}
 	}
+	if v, ok := live["kb"].(float64); ok {
+		live["kb"] = c20BigBase + int64(v)
+	}
+	if c.Big {
+		res.Labels = append(res.Labels, "register-holding-int64-beyond-2^53")
+	}
 	// provenance of each register value: which (query,row) wrote it
 	type stamp struct{ q, r int }
 	writer := map[string]stamp{}
@@ -207,7 +232,15 @@ func checkC20(c *C20Case) Result {
 			built[i] = built[j-1]
 			return
 		}
-		built[i] = Build(map[string]any{"t": val.Copy(c.Queries[i].Rows)}, c.Queries[i].sql(), Opts{}, genql.WithVars(live))
+		rows, _ := val.Copy(c.Queries[i].Rows).([]any)
+		for _, r := range rows {
+			if m, ok := r.(map[string]any); ok {
+				if v, ok := m["b"].(float64); ok {
+					m["b"] = c20BigBase + int64(v)
+				}
+			}
+		}
+		built[i] = Build(map[string]any{"t": rows}, c.Queries[i].sql(), Opts{}, genql.WithVars(live))
 	}
 	if c.PreBuild {
 		for i := range c.Queries {
@@ -320,11 +353,45 @@ func checkC20(c *C20Case) Result {
 			res.Violation = fmt.Sprintf("%s\n  expected rows %s, got %s", ctx(), val.JSON(want), got.Describe())
 			return res
 		}
+		if c.Big && got.OK() {
+			// columns read from register kb come back as the native integers that were stored: map them to
+			// the small numbers of the case file (anything else is left as it is and will not match)
+			back := make([]any, len(got.Raw))
+			for ri, r := range got.Raw {
+				back[ri] = r
+				m, ok := r.(map[string]any)
+				if !ok {
+					continue
+				}
+				if q.Form == "derived" {
+					m, _ = m["x"].(map[string]any)
+				}
+				cp := make(map[string]any, len(m))
+				for k, v := range m {
+					cp[k] = v
+				}
+				for _, it := range q.Items {
+					if (it.Kind == "get" || it.Kind == "getsub") && it.Key == "kb" {
+						cp[it.Alias] = c20Down(cp[it.Alias])
+					}
+				}
+				if q.Form == "derived" {
+					back[ri] = map[string]any{"x": cp}
+				} else {
+					back[ri] = cp
+				}
+			}
+			got.Rows = val.NormRows(back)
+		}
 		if !seqEqual(got.Rows, normList(want)) {
 			res.Violation = fmt.Sprintf("%s\n  expected rows %s\n  got           %s", ctx(), val.JSON(normList(want)), val.JSON(got.Rows))
 			return res
 		}
-		if !val.Equal(val.Norm(live), val.Norm(model)) {
+		liveView := val.CopyMap(live)
+		if v, ok := liveView["kb"]; ok {
+			liveView["kb"] = c20Down(v)
+		}
+		if !val.Equal(val.Norm(liveView), val.Norm(model)) {
 			res.Violation = fmt.Sprintf("%s\n  after Exec the caller's variable map is %s, the register model says %s", ctx(), val.JSON(live), val.JSON(model))
 			return res
 		}
@@ -379,4 +446,14 @@ func init() {
 		Quick:    2000,
 		Thorough: 150000,
 	})
+}
+
+// c20BigBase + v is what register kb and column b really hold when a case says v.
+const c20BigBase = int64(1) << 53
+
+func c20Down(v any) any {
+	if n, ok := v.(int64); ok {
+		return float64(n - c20BigBase)
+	}
+	return v
 }
